@@ -27,6 +27,7 @@
   response with `specDecodeMsg` and compares it with `specResolve` as multisets.
 -/
 import QV.Proofs.ServerAnswer
+import QV.Proofs.WriterFaithful
 
 namespace QV.C05
 open QV QV.Writer QV.Server QV.Zone QV.Spec.Zone QV.Spec.Resolve QV.ServerAnswer
@@ -270,5 +271,36 @@ example : view (handleNonAxfrQueryL exZone ⟨[la, lz]⟩ 1 .tcp ⟨w0, []⟩).2
 /-- a loop: `a.z CNAME a.z` is SERVFAIL with empty sections and AA clear -/
 example : specResolve (specBuild oct ⟨[lz], 1, .narrow, []⟩ [⟨[la, lz], 5, 1, 300, [1,97,1,122,0]⟩]) [la, lz] 1
     = servfail := by decide +kernel
+
+/-! ### the writer hypothesis discharged
+
+  `WriterRdataFaithful` is a theorem about the writer model (`QV.ServerAnswer.writerRdataFaithful`,
+  lean/QV/Proofs/WriterFaithful.lean): acceptance by `add_*_rr(set)` ⟺ the RDATA splits into the
+  components of its type (`QV.Writer.addRrOp_rdata`, `addRrsetOp_rdata`), and the implementation's
+  component table is the specification's layout table up to the last name (`shape_table`). -/
+
+/-- **C05, no assumption on the writer** -/
+theorem C05_answer
+    (eqv : Eqv) (apex : NameL.Name) (cls : Nat) (glue : GluePolicy) (rs : List Rec)
+    (qname : WName) (qtype : Nat) (tr : Transport) (w : Writer.State)
+    (ha : Folded apex) (hq : apex <:+ fold qname)
+    (hn : NoCapErr (handleNonAxfrQueryL (build eqv (Zone.new apex cls glue) rs) qname qtype tr ⟨w, []⟩).2.log) :
+    (handleNonAxfrQueryL (build eqv (Zone.new apex cls glue) rs) qname qtype tr ⟨w, []⟩).1 = .ok () ∧
+    view (handleNonAxfrQueryL (build eqv (Zone.new apex cls glue) rs) qname qtype tr ⟨w, []⟩).2.log
+      = View.ofResolution (specResolve (specBuild eqv ⟨apex, cls, glue, []⟩ rs) (fold qname) qtype) :=
+  C05_answer_partial writerRdataFaithful eqv apex cls glue rs qname qtype tr w ha hq hn
+
+/-- the model's negative answer, no assumption on the writer -/
+theorem C05_negative_soa {z : Zone.Zone} {sz : SZone} (hR : Rel z sz) (ha : Folded sz.apex) (ps : PS) :
+    ∃ evs, (addNegativeCachingSoa z ps).2.log = ps.log ++ evs ∧
+      (NoCapErr evs →
+        match negativeS sz with
+        | some d => (addNegativeCachingSoa z ps).1 = .ok () ∧ ∀ v, evs.foldl View.step v = d.apply v
+        | none => (addNegativeCachingSoa z ps).1 = .err .servFail) :=
+  C05_model_negative_soa writerRdataFaithful hR ha ps
+
+/-- the specification's `renderable` is exactly the writer's acceptance condition -/
+theorem C05_renderable_is_writer_acceptance (c t : Nat) (rd : List UInt8) :
+    renderable c t rd = rdataOK c t rd := renderable_eq_rdataOK c t rd
 
 end QV.C05
